@@ -1,6 +1,7 @@
 package main
 
 import (
+	"runtime"
 	"bytes"
 	"context"
 	"fmt"
@@ -32,7 +33,15 @@ type solveResult struct {
 	output string
 }
 
+// procSem bounds the number of solver processes running at once to the number of cores: a raced query starts three
+// processes and sixteen queries are in flight, which oversubscribed the machine threefold - a query that needs 8 s of
+// CPU then ran into a wall-clock timeout although nothing about it had changed. The clock of a process starts when it
+// gets its slot.
+var procSem = make(chan struct{}, runtime.NumCPU())
+
 func runSolver(sp solverSpec, file string, timeoutS int) solveResult {
+	procSem <- struct{}{}
+	defer func() { <-procSem }()
 	ctx, cancel := context.WithTimeout(context.Background(), time.Duration(timeoutS+2)*time.Second)
 	defer cancel()
 	argv := sp.argv(file, timeoutS)
